@@ -1,6 +1,7 @@
 package main
 
 import (
+	"context"
 	"fmt"
 	"runtime"
 	"strings"
@@ -11,6 +12,9 @@ import (
 	btapb "cloud.google.com/go/bigtable/admin/apiv2/adminpb"
 	btpb "cloud.google.com/go/bigtable/apiv2/bigtablepb"
 	"github.com/fullstorydev/emulators/bigtable/bttest"
+
+	"google.golang.org/grpc/codes"
+	"google.golang.org/grpc/status"
 
 	"verif/bt/drive"
 	"verif/bt/gen"
@@ -30,12 +34,14 @@ type c18RowState struct {
 	ret     int64
 }
 
+var c18Pad = strings.Repeat("p", 300)
+
 func (s c18RowState) same(o c18RowState) bool {
 	return s.Present == o.Present && s.Tag == o.Tag && s.Log == o.Log && s.G == o.G
 }
 
 func runC18(run *common.Run) {
-	run.Rule = "case = one ReadRows scan (full table or a key range; several response messages, so the table lock is released several times) running concurrently with 6 writer goroutines (three quarters of their writes aimed just ahead of a scan's current position) that each own a disjoint set of rows and rewrite all columns with one version tag, delete, re-create and read-modify-write-append them; 10% of rows are never written. A third of the scans (half in rounds with family creation) ask for three disjoint ranges plus explicit keys; in every second round new column families are created one after the other while the scans run, and every write sets a cell in the newest one together with its cells in the old family. Every row state and every scan carries logical call/return stamps from one atomic counter. Oracle per scan: status OK, keys strictly ascending without duplicates, every returned row is exactly one of the states that row had between scan start and scan end, a missing row must have had an 'absent' state in that window, unwritten rows exact. A PRNG-chosen subset of the scan's lock releases is held for a bounded time (hook ReadRows.unlocked). Non-trivial = scan during which at least one row had more than one admissible state; distinct by scan."
+	run.Rule = "case = one ReadRows scan (full table or a key range; several response messages, so the table lock is released several times) running concurrently with 6 writer goroutines (three quarters of their writes aimed just ahead of a scan's current position) that each own a disjoint set of rows and rewrite all columns with one version tag, delete, re-create and read-modify-write-append them; 10% of rows are never written. A third of the scans (half in rounds with family creation) ask for three disjoint ranges plus explicit keys; in every second round new column families are created one after the other while the scans run, and every write sets a cell in the newest one together with its cells in the old family. One of the three scanning clients is a scan-and-update client: fixed 64 KiB flow-control windows, and between two messages of its scan it sends a row write and waits for the answer (a scan whose client is not reading must not keep the table locked). Every row state and every scan carries logical call/return stamps from one atomic counter. Oracle per scan: status OK, keys strictly ascending without duplicates, every returned row is exactly one of the states that row had between scan start and scan end, a missing row must have had an 'absent' state in that window, unwritten rows exact. A PRNG-chosen subset of the scan's lock releases is held for a bounded time (hook ReadRows.unlocked). Non-trivial = scan during which at least one row had more than one admissible state; distinct by scan."
 	run.Assumptions = []string{"leveldb-mem and leveldb-disk engines only (the btree engine documents that it does not offer this)", "per-row single-writer ownership makes each row's state sequence exactly known"}
 	rounds := run.N(4, 60)
 	scansPerRound := run.N(10, 25)
@@ -89,8 +95,10 @@ func c18Round(run *common.Run, round int, engine string, nscans int) {
 	table := drive.MustTable(srv.Admin, "t", "f")
 	key := func(i int) string { return fmt.Sprintf("row%05d", i) }
 	dataMutsG := func(tag string, withG string) []model.Mut {
+		// "pad" (constant, ignored by the oracle) makes a response message larger than a 64 KiB flow-control window
 		m := []model.Mut{{Kind: model.DelRow},
-			{Kind: model.SetCell, Fam: "f", Qual: "c0", TS: 1000, Val: tag}, {Kind: model.SetCell, Fam: "f", Qual: "c1", TS: 1000, Val: tag}, {Kind: model.SetCell, Fam: "f", Qual: "c2", TS: 1000, Val: tag}}
+			{Kind: model.SetCell, Fam: "f", Qual: "c0", TS: 1000, Val: tag}, {Kind: model.SetCell, Fam: "f", Qual: "c1", TS: 1000, Val: tag}, {Kind: model.SetCell, Fam: "f", Qual: "c2", TS: 1000, Val: tag},
+			{Kind: model.SetCell, Fam: "f", Qual: "pad", TS: 1000, Val: c18Pad}}
 		if withG != "" {
 			m = append(m, model.Mut{Kind: model.SetCell, Fam: withG, Qual: "c0", TS: 1000, Val: tag})
 		}
@@ -125,6 +133,7 @@ func c18Round(run *common.Run, round int, engine string, nscans int) {
 		}
 	}
 	const W = 6
+	var updates int64
 	// scanners publish the index of the last row they received; writers aim most of their writes just ahead of a scan
 	var scanPos [3]int64
 	stop := make(chan struct{})
@@ -250,6 +259,16 @@ func c18Round(run *common.Run, round int, engine string, nscans int) {
 				return
 			}
 			defer conn.Close()
+			wdata := data
+			if sc == 0 {
+				// scanner 0 is a "scan and update" client: its scans come over a connection with fixed 64 KiB
+				// flow-control windows, and between two messages it performs a (no-op) row write on the table and
+				// waits for the answer before it reads on
+				if c2, d2, err := srv.NewSmallWindowConn(); err == nil {
+					defer c2.Close()
+					data = d2
+				}
+			}
 			for {
 				k := int(atomic.AddInt64(&next, 1))
 				if k >= nscans {
@@ -285,6 +304,15 @@ func c18Round(run *common.Run, round int, engine string, nscans int) {
 					if _, err := fmt.Sscanf(lastKey, "row%05d", &at); err == nil {
 						atomic.StoreInt64(&scanPos[sc], int64(at))
 					}
+					if sc == 0 {
+						wctx, wcancel := context.WithTimeout(context.Background(), 30*time.Second)
+						_, werr := wdata.MutateRow(wctx, &btpb.MutateRowRequest{TableName: table, RowKey: []byte("zzz-no-such-row"), Mutations: drive.MutsToProto([]model.Mut{{Kind: model.DelRow}})})
+						wcancel()
+						if status.Code(werr) == codes.DeadlineExceeded {
+							writeErr.Store("a client that writes a row between reading two messages of its own scan got no answer to the write within 30 s (the scan it had not finished reading kept the table locked)")
+						}
+						atomic.AddInt64(&updates, 1)
+					}
 				})
 				cancel()
 				scans[k] = scan{lo: lo, hi: hi, gaps: gaps, S: s, E: clock.Tick(), res: res}
@@ -292,6 +320,7 @@ func c18Round(run *common.Run, round int, engine string, nscans int) {
 		}(sc)
 	}
 	swg.Wait()
+	run.Count("writes_by_a_scanning_client_between_two_messages", atomic.LoadInt64(&updates))
 	close(stop)
 	wg.Wait()
 	if e, _ := writeErr.Load().(string); e != "" {
@@ -365,6 +394,9 @@ func c18Round(run *common.Run, round int, engine string, nscans int) {
 				cols := map[string]string{}
 				gval := ""
 				for _, c := range row.Cells {
+					if c.Fam == "f" && c.Qual == "pad" && c.TS == 1000 && c.Val == c18Pad {
+						continue
+					}
 					if strings.HasPrefix(c.Fam, "g") && c.Qual == "c0" && c.TS == 1000 {
 						if obs.G != "" {
 							fail(fmt.Sprintf("row %q has cells in two of the families created during the round (each write deletes the row first)", row.Key))
